@@ -219,6 +219,11 @@ PRE_IDIOMS = [
 ]
 
 
+ROUTE_IDIOMS = [
+    Rule(r'(\w+\((?:[^()]|\([^()]*\))*\))\.next_hop\(\)', r'route_next_hop(\1)', name='route::next_hop'),
+]
+
+
 GENERIC_CALLRULES = [
     CallRule(r'\bstd::bind(?=\s*\(\s*std::move)', {2: 'bind_owned_tok($1, $2, 0)', 3: 'bind_owned_tok($1, $2, $3)'}, name='bind-owned'),
     CallRule(r'(?<![\w.>:])post', {2: 'post_tok($2)'}, name='post(ctx, closure)'),
